@@ -23,7 +23,7 @@ PRELUDE = '''from inline_snapshot import snapshot
 from dataclasses import dataclass, field
 from collections import defaultdict, namedtuple
 from enum import Enum, Flag, auto
-from typing import NamedTuple, List
+from typing import NamedTuple, List, Optional
 import attrs
 import pydantic
 
@@ -60,6 +60,32 @@ class AT:
 class PM(pydantic.BaseModel):
     s: int
     t: str = "t"
+
+# several defaulted fields, so that default / non-default values occur in every order
+@dataclass
+class DC3:
+    a: int
+    b: str = "x"
+    c: int = 0
+    d: tuple = ()
+
+@attrs.define
+class AT3:
+    m: int
+    n: list = attrs.field(factory=list)
+    o: str = "o"
+    p: int = 0
+
+class PM3(pydantic.BaseModel):
+    s: int
+    t: str = "t"
+    u: int = 0
+    v: Optional[int] = None
+
+class NT3(NamedTuple):
+    p: int
+    q: str = "q"
+    r: int = 0
 
 class NoRepr:
     def __init__(self, i): self.i = i
@@ -103,7 +129,11 @@ def atom(rng, hashable=False, orderable=None):
             ("DC(1)", "dataclass"), ("DC(2, 'y')", "dataclass"), ("2+3j", "complex"), ("-1j", "complex"), ("float('inf')", "inf"), ("-float('inf')", "inf"),
             ("Outer.Tok(1)", "nested_hasrepr"), ("Outer.Col.B", "nested_enum"), ("Outer.Rec(1)", "nested_dataclass"),
             ("Outer.Rec(2, 'z')", "nested_dataclass"), ("Outer.Kind", "nested_type")]
+    opts += [("NT3(1, r=4)", "namedtuple"), ("NT3(2, 'z')", "namedtuple"), ("NT3(3, 'q', 5)", "namedtuple")]
     if not hashable:
+        opts += [("DC3(1, c=5)", "dataclass"), ("DC3(2, d=(1,))", "dataclass"), ("DC3(3, 'x', 0, (2,))", "dataclass"), ("DC3(4, 'y')", "dataclass"),
+                 ("AT3(1, o='z')", "attrs"), ("AT3(2, p=5)", "attrs"), ("AT3(3, [], 'o', 7)", "attrs"), ("AT3(4, [1])", "attrs"), ("AT3(5, [1], 'o', 2)", "attrs"),
+                 ("PM3(s=1, v=3)", "pydantic"), ("PM3(s=2, u=2)", "pydantic"), ("PM3(s=3, t='t', u=0, v=0)", "pydantic")]
         opts += [("DC(3, c=[1, 2])", "dataclass"), ("AT(4)", "attrs"), ("AT(5, [6])", "attrs"), ("PM(s=1)", "pydantic"),
                  ("PM(s=2, t='u')", "pydantic"), ("defaultdict(list, {1: [2]})", "defaultdict"), ("defaultdict(int)", "defaultdict")]
     weights = [3 if k in ("int", "str") else 1 for _s, k in opts]
